@@ -78,6 +78,7 @@ model(
         _sink=Opt(Callback('sink', effect=sink_recv)),
         _enqueued_rx_packets=DequeOf(Bytes, maxlen=rfcomm.DEFAULT_RX_QUEUE_SIZE),
     ),
+    methods={'on': Callback('on', effect=lambda ghost, event, listener: None)},
 )
 DLC = Inst('bumble.rfcomm:DLC')
 TX_GHOST = dict(dlci=Int, c_r=Int, mtu=Int, credits=Int, granted=Int, credit_frames=Int, data_frames=Int, wire=Bytes, frames=Int)
